@@ -58,6 +58,10 @@ type insert struct {
 	metadata bytemap.ByteMap
 	offset   wal.Offset
 	source   int
+	// more holds the further inserts of the same WAL entry (array-valued points). They are
+	// applied together with this one, so that no flush can persist the entry's offset
+	// with only part of the entry.
+	more []*insert
 }
 
 type rowStore struct {
@@ -294,6 +298,9 @@ func (rs *rowStore) processInserts(offsetsBySource common.OffsetsBySource, stop 
 			if insert.key != nil {
 				ms.tree.Update(insert.key, nil, insert.vals, insert.metadata)
 				rs.t.updateHighWaterMarkMemory(insert.vals.TimeInt())
+			}
+			for _, more := range insert.more {
+				ms.tree.Update(more.key, nil, more.vals, more.metadata)
 			}
 			rs.mx.Unlock()
 			verifCountApplied(rs.t)
